@@ -3,7 +3,7 @@ From Coq Require Import String Ascii List Bool Arith Lia.
 From KV Require Import Lib.Str Lib.StrOps Lib.ODict Gen.Tags Gen.Pipeline Model.Engine Model.EngineSM Model.EngineDomain
                        Model.EngineDomain16 Spec.RefExpand Spec.RefExpand16
                        Proofs.StrProofs Proofs.EngineStr Proofs.EngineRepl Proofs.EngineC17 Proofs.EnginePipe Proofs.EngineC16
-                       Proofs.EngineBlock Proofs.EngineMsg Proofs.EngineTT Proofs.EngineTps Proofs.TagFree Proofs.EngineTrans.
+                       Proofs.EngineBlock Proofs.EngineMsg Proofs.EngineEv Proofs.EngineTT Proofs.EngineTps Proofs.TagFree Proofs.EngineTrans.
 Import ListNotations.
 Open Scope string_scope.
 Open Scope list_scope.
@@ -11,25 +11,30 @@ Open Scope list_scope.
 (* ---------------------------------------------------------------- items and what they look like between the stages *)
 Definition item_tags (it : item16) : option (string * string) :=
   match it with Text _ => None | Raw _ => None | Block k _ _ _ => Some (stage_tags k) | SigBlock _ _ _ => Some sig_tags
-              | TransBlock _ _ _ => Some pst_tags | MsgBlock _ _ _ _ => Some (stage_tags KMsg) | InitLine _ => None | UserLine _ => None | TableLine _ _ => None end.
+              | TransBlock _ _ _ => Some pst_tags | EvBlock _ _ _ => Some (stage_tags KEvent) | MsgBlock _ _ _ _ => Some (stage_tags KMsg) | InitLine _ => None | UserLine _ => None | TableLine _ _ => None end.
 Definition item_lines (it : item16) : list string :=
   match it with Text _ => [] | Raw _ => [] | Block _ _ _ b => map render_line b | SigBlock _ _ b => map render_line b
-              | TransBlock _ _ b => flat_map render_titem b | MsgBlock _ _ _ b => map render_line b | InitLine _ => [] | UserLine _ => [] | TableLine _ _ => [] end.
+              | TransBlock _ _ b => flat_map render_titem b | EvBlock _ _ b => map render_line b | MsgBlock _ _ _ b => map render_line b | InitLine _ => [] | UserLine _ => [] | TableLine _ _ => [] end.
 Definition item_bl (it : item16) : string :=
   match it with Text _ => EmptyString | Raw _ => EmptyString | Block k ib _ _ => (ib ++ begin_line (block_word k))%string
               | SigBlock ib _ _ => (ib ++ begin_line "PER_ACTION_SIGNATURE")%string
-              | TransBlock ib _ _ => (ib ++ begin_line "PER_STATETRANSITION")%string | MsgBlock ib _ _ _ => (ib ++ begin_line "PER_MSG")%string | InitLine _ => EmptyString | UserLine _ => EmptyString | TableLine _ _ => EmptyString end.
+              | TransBlock ib _ _ => (ib ++ begin_line "PER_STATETRANSITION")%string | EvBlock ib _ _ => (ib ++ begin_line "PER_EVENT")%string | MsgBlock ib _ _ _ => (ib ++ begin_line "PER_MSG")%string | InitLine _ => EmptyString | UserLine _ => EmptyString | TableLine _ _ => EmptyString end.
 Definition item_el (it : item16) : string :=
   match it with Text _ => EmptyString | Raw _ => EmptyString | Block k _ ie _ => (ie ++ end_line (block_word k))%string
               | SigBlock _ ie _ => (ie ++ end_line "PER_ACTION_SIGNATURE")%string
-              | TransBlock _ ie _ => (ie ++ end_line "PER_STATETRANSITION")%string | MsgBlock _ ie sfx _ => (ie ++ "<<<PER_MSG_END>>>" ++ sfx ++ nl_str)%string | InitLine _ => EmptyString | UserLine _ => EmptyString | TableLine _ _ => EmptyString end.
+              | TransBlock _ ie _ => (ie ++ end_line "PER_STATETRANSITION")%string | EvBlock _ ie _ => (ie ++ end_line "PER_EVENT")%string | MsgBlock _ ie sfx _ => (ie ++ "<<<PER_MSG_END>>>" ++ sfx ++ nl_str)%string | InitLine _ => EmptyString | UserLine _ => EmptyString | TableLine _ _ => EmptyString end.
 Definition item_inner (m : smodel) (it : item16) : list string -> option string -> option (list string) :=
   match it with
   | Text _ => fun _ _ => None
   | Raw _ => fun _ _ => None
-  | Block k _ _ _ => match k with KMsg => inner_msgs (if_msgids m) (if_msgs m) | _ => inner_of_kind k (items_of (elements_of_model m) k) end
+  | Block k _ _ _ => match k with
+                     | KMsg => inner_msgs (if_msgids m) (if_msgs m)
+                     | KEvent => inner_events (if_sigs m) (sm_events m)
+                     | _ => inner_of_kind k (items_of (elements_of_model m) k)
+                     end
   | SigBlock _ _ _ => inner_actionsigs (sm_actionsigs m)
   | TransBlock _ _ _ => inner_tps (sm_tps m)
+  | EvBlock _ _ _ => inner_events (if_sigs m) (sm_events m)
   | MsgBlock _ _ _ _ => inner_msgs (if_msgids m) (if_msgs m)
   | InitLine _ => fun _ _ => None
   | UserLine _ => fun _ _ => None
@@ -61,20 +66,22 @@ Lemma wf_x_of_wf e it : item16_wf e it = true -> wf_x e it = true.
 Proof. destruct it; try (intros H; exact H). intros _. reflexivity. Qed.
 
 Lemma wf_x_user a e it : wf_x (with_user a e) it = wf_x e it.
-Proof. destruct it as [l|rs|k ib ie body|ib ie body|ib ie body|ib ie sfx body|il|ul|pre ee]; try reflexivity. Qed.
+Proof. destruct it as [l|rs|k ib ie body|ib ie body|ib ie body|ib ie body|ib ie sfx body|il|ul|pre ee]; try reflexivity. Qed.
 
 (* the block theorems, per item *)
 Lemma item_expands m it :
   item16_ok it = true -> wf_x (elements_of_model m) it = true -> item_tags it <> None ->
   item_inner m it (item_lines it) None = Some (ref_item16 (elements_of_model m) it).
 Proof.
-  destruct it as [l|rs|k ib ie body|ib ie body|ib ie body|ib ie sfx body|il|ul|pre ee]; cbn [item16_ok wf_x item16_wf item_tags item_inner item_lines ref_item16]; intros Ho Hw Hn.
+  destruct it as [l|rs|k ib ie body|ib ie body|ib ie body|ib ie body|ib ie sfx body|il|ul|pre ee]; cbn [item16_ok wf_x item16_wf item_tags item_inner item_lines ref_item16]; intros Ho Hw Hn.
   - contradiction.
   - contradiction.
   - apply andb_prop in Ho as [_ Ho]. destruct k; try (apply inner_block; assumption).
-    cbn [items_of elements_of_model el_msgs table_of_kind] in *. apply plain_msg_block_is_ref; assumption.
+    + cbn [items_of elements_of_model el_events table_of_kind] in *. apply plain_ev_block_is_ref; assumption.
+    + cbn [items_of elements_of_model el_msgs table_of_kind] in *. apply plain_msg_block_is_ref; assumption.
   - apply andb_prop in Ho as [_ Ho]. cbn [elements_of_model el_sigs]. apply sig_block_is_ref; assumption.
   - apply andb_prop in Ho as [_ Ho]. cbn [elements_of_model el_tps] in *. apply inner_tps_is_ref; assumption.
+  - apply andb_prop in Ho as [_ Ho]. cbn [elements_of_model el_events el_evsigs] in *. apply ev_block_is_ref; assumption.
   - apply andb_prop in Ho as [_ Ho]. cbn [elements_of_model el_msgs el_msgids] in *. apply andb_prop in Hw as [Hi Hw]. apply msg_block_is_ref; assumption.
   - contradiction.
   - contradiction.
@@ -106,13 +113,22 @@ Proof.
   apply copy_tagfree; [exact H1| rewrite Hk; exact K2 | exact Wv].
 Qed.
 
+Lemma ev_block_tagfree sigs items body : ev_block_wf sigs items body = true -> forallb tagfree (ref_ev_block sigs items body) = true.
+Proof.
+  unfold ev_block_wf, ref_ev_block. generalize 0. induction items as [|x items IH]; intros k W; [reflexivity|].
+  cbn [enumerate_from forallb flat_map fst snd] in *. apply andb_prop in W as [W1 W]. rewrite forallb_app', (IH _ W), andb_true_r.
+  apply andb_prop in W1 as [_ W1]. clear -W1. induction body as [|l body IHb]; [reflexivity|]. cbn [forallb map] in *. apply andb_prop in W1 as [A B].
+  rewrite (IHb B), andb_true_r. apply andb_prop in A as [_ A]. exact A.
+Qed.
+
 Lemma expanded_tagfree e it : item16_ok it = true -> wf_x e it = true -> item_tags it <> None ->
   forallb tagfree (ref_item16 e it) = true.
 Proof.
-  destruct it as [l|rs|k ib ie body|ib ie body|ib ie body|ib ie sfx body|il|ul|pre ee]; cbn [item16_ok wf_x item16_wf item_tags ref_item16]; intros Ho Hw Hn; [contradiction|contradiction| | | | |contradiction|contradiction|contradiction].
+  destruct it as [l|rs|k ib ie body|ib ie body|ib ie body|ib ie body|ib ie sfx body|il|ul|pre ee]; cbn [item16_ok wf_x item16_wf item_tags ref_item16]; intros Ho Hw Hn; [contradiction|contradiction| | | | | |contradiction|contradiction|contradiction].
   - apply andb_prop in Ho as [_ Ho]. unfold ref_block, block_wf in *. apply (ref_block_tagfree (table_of_kind k) (keys_of k) (keys_same k) body Ho _ 0 Hw).
   - apply andb_prop in Ho as [_ Ho]. unfold ref_block, block_wf in *. apply (ref_block_tagfree sig_table sig_keys sig_keys_same body Ho _ 0 Hw).
   - apply andb_prop in Ho as [_ Ho]. apply ref_trans_tagfree; assumption.
+  - apply ev_block_tagfree. exact Hw.
   - apply andb_prop in Ho as [_ Ho]. apply andb_prop in Hw as [_ Hw]. unfold ref_block, block_wf in *.
     apply (ref_block_tagfree (msg_table (el_msgids e)) msg_keys (msg_keys_same (el_msgids e)) body Ho _ 0 Hw).
 Qed.
@@ -130,7 +146,7 @@ Definition is_init (it : item16) : bool := match it with InitLine _ => true | Us
 Lemma plain_item_line it : item_tags it = None -> is_init it = false -> item16_ok it = true ->
   exists s, render_item16 it = [s] /\ (forall e, ref_item16 e it = [s]) /\ tagfree s = true /\ (count_char LF s <=? 1)%nat = true.
 Proof.
-  destruct it as [l|rs|k ib ie body|ib ie body|ib ie body|ib ie sfx body|il|ul|pre ee]; cbn [item_tags item16_ok is_init]; intros T I H; try discriminate.
+  destruct it as [l|rs|k ib ie body|ib ie body|ib ie body|ib ie body|ib ie sfx body|il|ul|pre ee]; cbn [item_tags item16_ok is_init]; intros T I H; try discriminate.
   - destruct (text_tagfree l H) as [A B]. exists (l ++ nl_str)%string. repeat split; auto.
   - apply andb_prop in H as [A B]. exists rs. repeat split; auto.
 Qed.
@@ -147,7 +163,7 @@ Qed.
 Lemma item_lines_ok it tags : item16_ok it = true -> item_tags it = Some tags ->
   block_lines_ok tags (item_bl it) (item_el it) = true.
 Proof.
-  destruct it as [l|rs|k ib ie body|ib ie body|ib ie body|ib ie sfx body|il|ul|pre ee]; cbn [item16_ok item_tags item_bl item_el]; intros H T; inversion T; subst;
+  destruct it as [l|rs|k ib ie body|ib ie body|ib ie body|ib ie body|ib ie sfx body|il|ul|pre ee]; cbn [item16_ok item_tags item_bl item_el]; intros H T; inversion T; subst;
     apply andb_prop in H as [H _]; exact H.
 Qed.
 
@@ -166,8 +182,9 @@ Proof.
   assert (B : forall keys body, forallb (body_line_ok keys) body = true -> forallb inert (map render_line body) = true).
   { intros keys. induction body as [|l body IH]; [reflexivity|]. cbn [forallb map]. intros H. apply andb_prop in H as [H1 H2].
     rewrite (IH H2), andb_true_r. unfold body_line_ok in H1. repeat (apply andb_prop in H1 as [H1 ?K]). unfold inert. rewrite K0, K. reflexivity. }
-  destruct it as [l|rs|k ib ie body|ib ie body|ib ie body|ib ie sfx body|il|ul|pre ee]; cbn [item16_ok item_lines]; intros H; try reflexivity;
-    apply andb_prop in H as [_ H]; [exact (B _ _ H)|exact (B _ _ H)|exact (trans_lines_inert _ H)|exact (B _ _ H)].
+  destruct it as [l|rs|k ib ie body|ib ie body|ib ie body|ib ie body|ib ie sfx body|il|ul|pre ee]; cbn [item16_ok item_lines]; intros H; try reflexivity;
+    apply andb_prop in H as [_ H]; [exact (B _ _ H)|exact (B _ _ H)|exact (trans_lines_inert _ H)| |exact (B _ _ H)].
+  apply (B ev_keys). revert H. apply forallb_impl. intros l Hl. unfold ev_line_ok in Hl. apply andb_prop in Hl as [Hl _]. exact Hl.
 Qed.
 
 Lemma lines_stage_inert st ls : In st all_stages -> forallb inert ls = true -> forallb (fun s => stage_inert s st) ls = true.
@@ -202,7 +219,7 @@ Proof.
       rewrite (render_block_shape it b e' T). destruct (const_facts _ _ _ st (item_lines_ok it _ Ho T) Hst Hown) as [Cb Ce]. cbn [forallb]. rewrite Cb. cbn [andb]. rewrite forallb_app'.
       rewrite (lines_stage_inert st _ Hst (item_lines_inert it Ho)). cbn [forallb andb]. rewrite Ce. reflexivity.
   - destruct (is_init it) eqn:I.
-    + destruct it as [l|rs|k ib ie body|ib ie body|ib ie body|ib ie sfx body|il|ul|pre ee]; try discriminate.
+    + destruct it as [l|rs|k ib ie body|ib ie body|ib ie body|ib ie body|ib ie sfx body|il|ul|pre ee]; try discriminate.
       * cbn [ref_item16 forallb]. rewrite (tagfree_stage_inert _ st (init_item_tagfree e _ Ho Hw)). reflexivity.
       * (* a user line: as it stands, inert for every stage *)
         cbn [render_item16 forallb item16_ok] in *. rewrite andb_true_r. unfold plain_line_ok in Ho. apply andb_prop in Ho as [Ho _]. apply andb_prop in Ho as [_ Ho].
@@ -281,9 +298,9 @@ Section Steps.
             destruct it; try exact P; cbn [item_tags] in T; discriminate.
           * unfold view. rewrite T. unfold inb. cbn [existsb]. rewrite Eb. reflexivity.
       - apply NotOwn.
-        + destruct it as [l|rs|k ib ie body|ib ie body|ib ie body|ib ie sfx body|il|ul|pre ee]; try (cbn [item_tags] in T; discriminate T); try exact I.
+        + destruct it as [l|rs|k ib ie body|ib ie body|ib ie body|ib ie body|ib ie sfx body|il|ul|pre ee]; try (cbn [item_tags] in T; discriminate T); try exact I.
           left. reflexivity.
-        + unfold view. rewrite T. destruct it as [l|rs|k ib ie body|ib ie body|ib ie body|ib ie sfx body|il|ul|pre ee]; try reflexivity.
+        + unfold view. rewrite T. destruct it as [l|rs|k ib ie body|ib ie body|ib ie body|ib ie body|ib ie sfx body|il|ul|pre ee]; try reflexivity.
           (* a table line: the begin tag of a pair stage is not its tag *)
           unfold inb. cbn [existsb]. rewrite (Hpair ee). reflexivity. }
     apply G. auto.
@@ -323,11 +340,11 @@ Proof.
     first [ left; split; reflexivity
           | right; left; do 3 eexists; split; [reflexivity|]; split;
             [first [ left; split; [reflexivity|intros []; reflexivity] | right; exists true; split; reflexivity | right; exists false; split; reflexivity ]
-            |intros it tags T; destruct it as [l|rs|k ib ie body|ib ie body|ib ie body|ib ie sfx body|il|ul|pre ee]; cbn [item_tags] in T; try discriminate;
+            |intros it tags T; destruct it as [l|rs|k ib ie body|ib ie body|ib ie body|ib ie body|ib ie sfx body|il|ul|pre ee]; cbn [item_tags] in T; try discriminate;
              inversion T; subst tags; clear T; try destruct k; reflexivity]
           | right; right; do 5 eexists; split; [reflexivity|]; split; [reflexivity|]; split; [intros []; reflexivity|];
-            intros it tags T E; destruct it as [l|rs|k ib ie body|ib ie body|ib ie body|ib ie sfx body|il|ul|pre ee]; cbn [item_tags] in T; [discriminate|discriminate| | | | |discriminate|discriminate|discriminate];
-            inversion T; subst tags; clear T; [destruct k| | |]; cbn [fst snd stage_tags sig_tags pst_tags] in *;
+            intros it tags T E; destruct it as [l|rs|k ib ie body|ib ie body|ib ie body|ib ie body|ib ie sfx body|il|ul|pre ee]; cbn [item_tags] in T; [discriminate|discriminate| | | | | |discriminate|discriminate|discriminate];
+            inversion T; subst tags; clear T; [destruct k| | | |]; cbn [fst snd stage_tags sig_tags pst_tags] in *;
             first [ split; [reflexivity|intros x; reflexivity] | vm_compute in E; discriminate E ] ] |]).
   contradiction.
 Qed.
@@ -373,10 +390,10 @@ Section Single.
     { intros it Hit Hnt. destruct (In_ok m t Hok Hwf it Hit) as [Ho Hw]. split.
       - unfold view. destruct (item_tags it) as [[b' et']|] eqn:T.
         + unfold inb. cbn [existsb]. pose proof (Hpair it _ T) as P. cbn [fst] in P. rewrite P. reflexivity.
-        + destruct it as [l|rs|k ib ie body|ib ie body|ib ie body|ib ie sfx body|il|ul|pre ee]; try reflexivity.
+        + destruct it as [l|rs|k ib ie body|ib ie body|ib ie body|ib ie body|ib ie sfx body|il|ul|pre ee]; try reflexivity.
           unfold inb. cbn [existsb]. rewrite (Hnt pre ee eq_refl). reflexivity.
       - apply (view_lines_inert e done it st Hst Ho Hw).
-        destruct it as [l|rs|k ib ie body|ib ie body|ib ie body|ib ie sfx body|il|ul|pre ee]; cbn [pending_ok item_tags]; try exact I; try (left; reflexivity).
+        destruct it as [l|rs|k ib ie body|ib ie body|ib ie body|ib ie body|ib ie sfx body|il|ul|pre ee]; cbn [pending_ok item_tags]; try exact I; try (left; reflexivity).
         left. unfold own_single, st. cbn [String.eqb andb]. rewrite String.eqb_sym. rewrite (Hnt pre ee eq_refl). reflexivity. }
     destruct Hcase as [[Hn Hno]|(ee & -> & Hs)].
     - rewrite Hn.
@@ -400,7 +417,7 @@ Section Single.
       { intros it' Hit' Hnt. destruct (Other it' Hit' Hnt) as [V F]. rewrite V. clear V.
         induction (view e done it') as [|x xs IHx]; [reflexivity|]. cbn [forallb flat_map] in *. apply andb_prop in F as [F1 F2].
         apply negb_true_iff in F1. rewrite F1, (IHx F2). reflexivity. }
-      destruct it as [l|rs|k ib ie body|ib ie body|ib ie body|ib ie sfx body|il|ul|pre ee']; try (apply Gen; [exact Hit|intros ? ? E; discriminate E]).
+      destruct it as [l|rs|k ib ie body|ib ie body|ib ie body|ib ie body|ib ie sfx body|il|ul|pre ee']; try (apply Gen; [exact Hit|intros ? ? E; discriminate E]).
       destruct (Bool.eqb ee' ee) eqn:Eb; [exact (Own pre ee' eq_refl Eb)|].
       apply Gen; [exact Hit|]. intros ? ? E. inversion E; subst. rewrite ttt_tags_differ. exact Eb.
   Qed.
@@ -425,7 +442,7 @@ Section Compose.
     - rewrite (step_id m t Hok Hwf st done Hst Ht).
       + unfold done_after at 2. rewrite Hk. apply IH; [exact Hin'|]. unfold done_after in Hf2. rewrite Hk in Hf2. exact Hf2.
       + intros it _. destruct st as [[[[kind b0] e0] i0] c0]. unfold marks in Hk. cbn [stage_kind] in Hk. apply orb_false_elim in Hk as [Hk1 Hk2].
-        destruct it as [l|rs|k ib ie body|ib ie body|ib ie body|ib ie sfx body|il|ul|pre ee]; cbn [pending_ok item_tags]; try exact I; left; cbn [own_stage own_single]; rewrite ?Hk1, ?Hk2; reflexivity.
+        destruct it as [l|rs|k ib ie body|ib ie body|ib ie body|ib ie body|ib ie sfx body|il|ul|pre ee]; cbn [pending_ok item_tags]; try exact I; left; cbn [own_stage own_single]; rewrite ?Hk1, ?Hk2; reflexivity.
     - subst st. unfold marks in Hf1. cbn [stage_kind stage_b String.eqb] in Hf1. cbn in Hf1. apply negb_true_iff in Hf1.
       rewrite (step_single m t Hok Hwf b inner coll done Hst Hf1 Hcase (fun it tags T => Hpair it tags T)).
       change (done_after done ("Single", b, "", inner, coll)) with (b :: done). apply IH; [exact Hin'|]. exact Hf2.
@@ -443,7 +460,7 @@ Section Compose.
 
   Lemma all_done it tags : item_tags it = Some tags -> inb (fst tags) done_final = true.
   Proof.
-    destruct it as [l|rs|k ib ie body|ib ie body|ib ie body|ib ie sfx body|il|ul|pre ee]; cbn [item_tags]; intros T; inversion T; subst; [destruct k| | |]; vm_compute; reflexivity.
+    destruct it as [l|rs|k ib ie body|ib ie body|ib ie body|ib ie body|ib ie sfx body|il|ul|pre ee]; cbn [item_tags]; intros T; inversion T; subst; [destruct k| | | |]; vm_compute; reflexivity.
   Qed.
 
   Lemma view_final : flat_map (view e done_final) t = flat_map (mid_item16 e) t.
@@ -451,7 +468,7 @@ Section Compose.
     clear Hok Hwf. induction t as [|it t' IH]; [reflexivity|]. cbn [flat_map]. rewrite IH. f_equal.
     unfold view. destruct (item_tags it) as [[b et]|] eqn:T.
     - pose proof (all_done it (b, et) T) as D. cbn [fst] in D. rewrite D. destruct it; cbn [item_tags] in T; try discriminate; reflexivity.
-    - destruct it as [l|rs|k ib ie body|ib ie body|ib ie body|ib ie sfx body|il|ul|pre ee]; cbn [item_tags] in T; try discriminate; try reflexivity.
+    - destruct it as [l|rs|k ib ie body|ib ie body|ib ie body|ib ie body|ib ie sfx body|il|ul|pre ee]; cbn [item_tags] in T; try discriminate; try reflexivity.
       assert (D : inb (ttt_tag ee) done_final = true) by (destruct ee; vm_compute; reflexivity). rewrite D. reflexivity.
   Qed.
 
@@ -476,7 +493,7 @@ Section Compose.
     cbn [forallb] in Ho, Hw. apply andb_prop in Ho as [Hi Ho]. apply andb_prop in Hw as [Wi Hw].
     cbn [flat_map]. unfold filterInitialState in *. rewrite map_app, <- (IH Ho Hw). f_equal.
     destruct (match it with InitLine _ => true | _ => false end) eqn:I.
-    - destruct it as [l|rs|k ib ie body|ib ie body|ib ie body|ib ie sfx body|il|ul|pre ee]; try discriminate.
+    - destruct it as [l|rs|k ib ie body|ib ie body|ib ie body|ib ie body|ib ie sfx body|il|ul|pre ee]; try discriminate.
       unfold view. cbn [item_tags ref_item16 render_item16 map elements_of_model el_first]. f_equal.
       rewrite init_fold_chain. symmetry. cbn [item16_ok wf_x item16_wf elements_of_model el_first] in Hi, Wi.
       apply andb_prop in Hi as [Hi _]. apply andb_prop in Hi as [H1 _].
@@ -489,7 +506,7 @@ Section Compose.
       rewrite V in *. fold (filterInitialState m (render_item16 it)). symmetry. apply filterInitialState_id.
       intros l Hl.
       assert (C : pending_ok init_stage [] it)
-        by (destruct it as [l0|rs|k ib ie body|ib ie body|ib ie body|ib ie sfx body|il|ul|pre ee]; cbn [pending_ok item_tags]; try exact Logic.I; left; reflexivity).
+        by (destruct it as [l0|rs|k ib ie body|ib ie body|ib ie body|ib ie body|ib ie sfx body|il|ul|pre ee]; cbn [pending_ok item_tags]; try exact Logic.I; left; reflexivity).
       specialize (F C). rewrite forallb_forall in F. exact (F l Hl).
   Qed.
 
@@ -577,7 +594,7 @@ Section Whole.
       cbn [forallb]. rewrite Lb. cbn [andb]. rewrite forallb_app'. cbn [forallb]. rewrite Le, !andb_true_r.
       generalize (item_lines_inert it Hi). apply forallb_impl. intros s0 K. unfold inert in K. apply andb_prop in K. tauto.
     - destruct (is_init it) eqn:I.
-      + destruct it as [l|rs|k ib ie body|ib ie body|ib ie body|ib ie sfx body|il|ul|pre ee]; try discriminate; cbn [render_item16 forallb item16_ok] in *.
+      + destruct it as [l|rs|k ib ie body|ib ie body|ib ie body|ib ie body|ib ie sfx body|il|ul|pre ee]; try discriminate; cbn [render_item16 forallb item16_ok] in *.
         * apply andb_prop in Hi as [_ Hi]. rewrite Hi. reflexivity.
         * unfold plain_line_ok in Hi. apply andb_prop in Hi as [Hi _]. apply andb_prop in Hi as [_ Hi]. unfold common_inert in Hi.
           apply andb_prop in Hi as [Hi _]. rewrite Hi. reflexivity.
@@ -594,7 +611,7 @@ Section Whole.
     - left. assert (R : ref_item16 e it = mid_item16 e0 it) by (destruct it; cbn [item_tags] in T; try discriminate; reflexivity). split; [|exact R].
       rewrite <- R. apply expanded_tagfree; [exact Hi|apply wf_x_of_wf; exact Wi|rewrite T; discriminate].
     - destruct (is_init it) eqn:I.
-      + destruct it as [l|rs|k ib ie body|ib ie body|ib ie body|ib ie sfx body|il|ul|pre ee]; try discriminate.
+      + destruct it as [l|rs|k ib ie body|ib ie body|ib ie body|ib ie body|ib ie sfx body|il|ul|pre ee]; try discriminate.
         * left. split; [|reflexivity]. cbn [mid_item16 ref_item16 forallb]. rewrite (init_item_tagfree e0 _ Hi Wi). reflexivity.
         * right. exists ul. cbn [item16_ok item16_wf el_user with_user] in *. auto.
         * left. split; [|reflexivity]. exact (table_item_tagfree e0 pre ee Wi).
